@@ -52,7 +52,10 @@ parsingLoop:
 		}
 
 		// Process line.
-		nextChar := i + len(string(char))
+		// Note: `char` is `utf8.RuneError` for invalid bytes, whose encoded length
+		// differs from the 1 byte that was actually consumed from the text.
+		_, charSize := utf8.DecodeRuneInString(text[i:])
+		nextChar := i + charSize
 		currentLine := text[currentLineStart:nextChar]
 		line := NewLineFromString(currentLine)
 
